@@ -28,6 +28,11 @@ def _job(job):
     if big:          # a tutorial-sized pool: three blobs, few labels (coverage / cluster structure is only partial there)
         n = int(rng.integers(30, 50))
         X = rng.normal(size=(n, 2)) + np.array([[-4.0, 0.0], [4.0, 0.0], [0.0, 5.0]])[rng.integers(0, 3, size=n)]
+    if seed_tuple[2] % 4 == 1:
+        # re-measured points: the second half of the pool repeats the first half up to measurement noise of 1e-7, so runner-ups lie
+        # within 1e-7 (relative) of the best utility without being exact ties
+        m = n // 2
+        X[m:2 * m] = X[:m] * (1 + 1e-7 * rng.normal(size=(m, 2)))
     classes = [0, 1] if E.binary else [0, 1, 2]
     y = rng.integers(0, len(classes), size=n).astype(float) if E.task == "clf" else np.round(rng.normal(size=n), 1)
     lab = rng.random(n) < (0.04 if big else 0.5)          # big pools: one or two labels, most of the pool is not covered yet
@@ -52,7 +57,9 @@ def _job(job):
         return int(np.asarray(idx).ravel()[0]), np.asarray(ut, dtype=float)[0]
 
     def close(a, b):
-        return np.allclose(a, b, rtol=1e-7, atol=1e-9, equal_nan=True)
+        # re-measured points: distances between near-duplicates (~1e-7) come out of sklearn's x.x - 2x.y + y.y with an absolute
+        # cancellation error of ~1e-8 that depends on the row order (third-party numerics)
+        return np.allclose(a, b, rtol=1e-7, atol=1e-6 if seed_tuple[2] % 4 == 1 else 1e-9, equal_nan=True)
     try:
         i0, u0 = q(X, y, None)
     except Exception as e:
@@ -67,7 +74,7 @@ def _job(job):
         out["did"].append("indices")
         if not close(u0, u1):
             out["problems"].append(("none_vs_indices", f"max diff {np.nanmax(np.abs(u0 - u1)):.3g}"))
-        elif unique_best(u0) and i0 != i1:
+        elif (unique_best(u0) or strict_best(u0, u1)) and i0 != i1:
             out["problems"].append(("none_vs_indices_selection", f"{i0} vs {i1}"))
     except Exception as e:
         out["problems"].append(("exception_indices", repr(e)[:150]))
@@ -77,7 +84,7 @@ def _job(job):
             out["did"].append("rows")
             if not close(u0[unl], u2):
                 out["problems"].append(("none_vs_rows", f"max diff {np.nanmax(np.abs(u0[unl] - u2)):.3g}"))
-            elif unique_best(u0) and unl[i2] != i0:
+            elif (unique_best(u0) or strict_best(u0[unl], u2)) and unl[i2] != i0:
                 out["problems"].append(("none_vs_rows_selection", f"{i0} vs row {i2} (= sample {unl[i2]})"))
         except Exception as e:
             if err_class(e) != "MappingError":
@@ -141,6 +148,15 @@ def _job(job):
         except Exception as e:
             out["problems"].append(("exception_permutation", repr(e)[:150]))
     return out
+
+
+def strict_best(ua, ub):
+    """both addressings report bit-identical utilities whose maximum is attained exactly once: however small the margin, the
+    selection is determined"""
+    if ua.shape != ub.shape or not np.array_equal(ua, ub, equal_nan=True):
+        return False
+    v = ua[~np.isnan(ua)]
+    return len(v) > 0 and int(np.sum(v == v.max())) == 1
 
 
 def unique_best(u):
